@@ -1,6 +1,6 @@
 (* C11 Qualifier collection behaves as a case-insensitive sorted map *)
 Load "coq/props/Hdr".
-From PM Require Import Quals2 Quals3 Quals4 Quals5.
+From PM Require Import Quals2 Quals3 Quals4 Quals5 Final Exec.
 Lemma src_rt : rt_ok cfg. Proof. apply conds_rt_ok. vm_compute. reflexivity. Qed.
 Lemma src_tbl : tbl_ok cfg. Proof. apply conds_tbl_ok. vm_compute. reflexivity. Qed.
 Lemma src_cfg_ok : cfg_ok cfg. Proof. exact (rt_cfg _ src_rt). Qed.
@@ -54,3 +54,11 @@ Print Assumptions C11_from_pairs_refuses_repeated_key.
 Theorem C11_canonical_form : forall q1 q2, QInv cfg q1 -> QInv cfg q2 -> (forall k, valid_key cfg k = true -> q_get cfg q1 k = q_get cfg q2 k) -> q1 = q2.
 Proof. apply C11_canon; sc. Qed.
 Print Assumptions C11_canonical_form.
+(* every operation of the executed language (27 operations: Qualifiers, Entry, OccupiedEntry, VacantEntry, iterators, typed accessors) keeps the invariant *)
+Theorem C11_executed_language_invariant : forall ops q, QInv cfg q -> QInv cfg (fst (qxrun cfg q ops)).
+Proof. apply qxrun_inv; sc. Qed.
+Print Assumptions C11_executed_language_invariant.
+Theorem C11_entry_or_insert_is_reference : forall q k v, QInv cfg q -> valid_key cfg k = true ->
+  qxstep cfg q (QEOrIns k v) = match q_get cfg q k with Some w => (q, XoOpt (Some w)) | None => (q_set cfg q k v, XoOpt (Some v)) end.
+Proof. apply qxstep_entry_or_insert; sc. Qed.
+Print Assumptions C11_entry_or_insert_is_reference.
